@@ -319,7 +319,9 @@ func (tt *typeTab) zero(t types.Type) Term {
 		return Term{app("mk_"+s, args...), s}
 	case *types.Array:
 		s := tt.sort(t)
-		return Term{fmt.Sprintf("((as const %s) %s)", s, tt.zero(u.Elem()).S), s}
+		// the default of a constant array must be a value literal for cvc5: spell the nil constructors out
+		z := strings.NewReplacer("niliface", "(mkiface 0 (mkptr 0 0))", "nilslice", "(mkslice 0 0 0 0)", "nilptr", "(mkptr 0 0)").Replace(tt.zero(u.Elem()).S)
+		return Term{fmt.Sprintf("((as const %s) %s)", s, z), s}
 	}
 	s := tt.sort(t)
 	z := kindZero(tt.kind(t))
